@@ -19,6 +19,7 @@ DOC = {
         'C06.R5': 'FileMetadata::new/FileId::new use fs::metadata (follow links); Entry::from_path uses symlink_metadata',
         'C06.R6': 'FileGroupFilter.root_paths and DedupeConfig.isolated_roots derive from a canonicalising call, like the scanned paths (Walk::absolute)',
         'C06.R7': 'GroupConfig::rf_over() does not read `transform`',
+        'C06.R10': 'hard links are one replica, two files of two file systems that happen to share an inode number are two: the sub-grouping by file identity uses the whole FileId, never the inode number alone (re-evaluates C01.R11)',
         'C06.R9': 'Path::is_prefix_of compares whole components of both paths and answers true only when all components of the root are consumed (no string-prefix test)',
         'C06.R8': 'replica-count shortcuts (file_count / unique_count instead of sub-grouping) are guarded by root_paths.is_empty() and !group_by_id',
     },
@@ -40,6 +41,9 @@ def run(ctx):
     r7(ctx)
     r8(ctx, 'C06.R8')
     r9(ctx)
+    from .common import reevaluate
+    from . import c01
+    reevaluate(ctx, 'C06.R10', c01.r11)
 
 
 def r1(ctx):
